@@ -900,7 +900,9 @@ func (e *Engine) findIndicesBranchDispatchAt(haystack []byte, at int) (int, int,
 
 // findIndicesTeddy returns indices using Teddy prefilter - zero alloc.
 func (e *Engine) findIndicesTeddy(haystack []byte) (int, int, bool) {
-	if e.prefilter == nil {
+	// Longest (POSIX) mode: the literal engine reports the first alternative that
+	// matches at a position, not the longest one.
+	if e.prefilter == nil || e.longest {
 		return e.findIndicesNFA(haystack)
 	}
 
@@ -929,7 +931,9 @@ func (e *Engine) findIndicesTeddy(haystack []byte) (int, int, bool) {
 
 // findIndicesTeddyAt returns indices using Teddy at position - zero alloc.
 func (e *Engine) findIndicesTeddyAt(haystack []byte, at int) (int, int, bool) {
-	if e.prefilter == nil || at >= len(haystack) {
+	// Longest (POSIX) mode: the literal engine reports the first alternative that
+	// matches at a position, not the longest one.
+	if e.prefilter == nil || e.longest || at >= len(haystack) {
 		return e.findIndicesNFAAt(haystack, at)
 	}
 
@@ -1131,7 +1135,9 @@ func (e *Engine) findIndicesDigitPrefilterAtWithState(haystack []byte, at int, s
 
 // findIndicesAhoCorasick returns indices using Aho-Corasick - zero alloc.
 func (e *Engine) findIndicesAhoCorasick(haystack []byte) (int, int, bool) {
-	if e.ahoCorasick == nil {
+	// Longest (POSIX) mode: the literal engine reports the first alternative that
+	// matches at a position, not the longest one.
+	if e.ahoCorasick == nil || e.longest {
 		return e.findIndicesNFA(haystack)
 	}
 	atomic.AddUint64(&e.stats.AhoCorasickSearches, 1)
@@ -1145,7 +1151,9 @@ func (e *Engine) findIndicesAhoCorasick(haystack []byte) (int, int, bool) {
 
 // findIndicesAhoCorasickAt returns indices using Aho-Corasick starting at position 'at' - zero alloc.
 func (e *Engine) findIndicesAhoCorasickAt(haystack []byte, at int) (int, int, bool) {
-	if e.ahoCorasick == nil || at >= len(haystack) {
+	// Longest (POSIX) mode: the literal engine reports the first alternative that
+	// matches at a position, not the longest one.
+	if e.ahoCorasick == nil || e.longest || at >= len(haystack) {
 		return e.findIndicesNFAAt(haystack, at)
 	}
 	atomic.AddUint64(&e.stats.AhoCorasickSearches, 1)
